@@ -21,6 +21,8 @@ META = {
 
 
 def run(prog, report, tier):
+    from .. import effects as _ef
+    _ef.check_global_memos(prog, report, {'src/mesh.py', 'src/hierarchical_error_estimator.py', 'src/h_h2_error_estimator.py'})
     hier.check_virtual_children(prog, report)
     hier.check_hh2(prog, report)
     hier.check_hier(prog, report)
